@@ -1,18 +1,29 @@
 """C02 - mainframe encodings decode to exactly the value that was stored (estruct.unpack, EBCDIC.value)."""
 import itertools
+import re
 from codec_common import *
 
-GEN = ["EstructParams", "Cp037", "TextCodec"]
+GEN = ["EstructParams", "Cp037", "TextCodec", "PictureParams", "ConversionParams"]
 RULE = ("round trips: the runner writes the mainframe encoding of (digits, sign) / an integer / bytes, the judge first checks the bytes ARE "
         "the specification's encoding (Spec/Encode.v), then compares the implementation's result with the stored value and with the model. "
         "Streams: all valid 1-2 byte packed buffers, all 1-2 byte zoned buffers, all 65536 halfwords, all 256 text bytes (exhaustive); every (m,n) with "
         "m+n<=18 (31 packed) x every sign nibble with zero/max/random digits; boundary and random fullwords/doublewords; random text. "
-        "Non-trivial = every case (branch = stream*100 + size); distinct = distinct case lines.")
-TRIVIAL_BRANCHES = []
+        "Text branch for ANY picture (kind 5): edited and alphanumeric pictures from C13's grammar generators x buffers that respect the classes "
+        "of the picture symbols, COBOL-style buffers (blank for a suppressed zero), one-position mutations, random bytes, short and surplus buffers; "
+        "all 256 byte values at every position of five pictures (exhaustive); pictures holding a + (known finding K-text-plus-sign). "
+        "TextUnpacker at the value level (kinds 6, 7): text records through schema_iter / SchemaMaker / TextUnpacker().nav().name().value(), the field "
+        "holding the decimal text of a value (every sign, point position, padding) or arbitrary text; Struct().value on binary and DISPLAY items (kind 8). "
+        "Non-trivial = every case except the strings the Decimal model leaves out (branches 799, 899); distinct = distinct case lines.")
+TRIVIAL_BRANCHES = [799, 899]
 ASSUMPTIONS = ["struct.unpack('>h'/'>i'/'>q') is big-endian two's complement (modelled; exhaustive over halfwords every run)",
                "bytes.decode('cp037') is code page 037 (table regenerated from the CPython codec every run)",
                "decimal default context: precision 28, ROUND_HALF_EVEN",
-               "how a PICTURE string yields (signed, integer digits, fraction digits) is the scanner's business (C13); here the clause text is printed from those numbers"]
+               "how a PICTURE string yields (signed, integer digits, fraction digits) is the scanner's business (C13); here the clause text is printed from those numbers",
+               "re (CPython 3.11+): a + copied into the pattern is a quantifier, a second one makes it possessive, a third is re.error; \\d \\w \\s are the str classes "
+               "(\\w, \\s spelled out in Model/Estruct.v for code points below 256; tied by the all-bytes-at-every-position stream)",
+               "Decimal(str) is the C implementation's grammar (strip, underscores dropped, Nd digits, one point, optional exponent); NaN / Infinity spellings "
+               "and exponents of more than 15 digits are outside the model (branch 799)",
+               "struct.unpack in native mode: h/i/q are 2/4/8 bytes in sys.byteorder; float formats are outside the model (branch 899)"]
 SIGNS = [0xA, 0xB, 0xC, 0xD, 0xE, 0xF]
 
 
@@ -69,10 +80,265 @@ def inputs(ctx):
     for _ in range(300 if quick else 5000):
         kk = rng.randint(1, 40)
         yield "text-random", dict(k=4, usage=DISPLAY, kk=kk, buf=[rng.randrange(256) for _ in range(kk)], nav=rng.random() < 0.1)
+    # ---- text branch for any picture, the text unpacker, the native-bytes unpacker
+    yield from text_any_inputs(ctx)
+    yield from text_unpacker_inputs(ctx)
+    yield from struct_inputs(ctx)
+
+
+# ---------------------------------------------------------------- text branch, any picture (kind 5)
+
+_REPEAT = re.compile(r"([AX9Z0])\((\d+)\)")
+CP037_OF = {}
+
+
+def expand(pic):
+    """the picture symbols one by one (repeat counts written out, V dropped, DB / CR kept as two letters)"""
+    return _REPEAT.sub(lambda m: m.group(1) * int(m.group(2)), pic).replace("V", "")
+
+
+def is_text_picture(pic):
+    """by construction of the generators: some symbol other than S 9 V"""
+    return any(ch not in "S9" for ch in expand(pic))
+
+
+def cp037_byte(ch):
+    if not CP037_OF:
+        for b in range(256):
+            CP037_OF[bytes([b]).decode("cp037")] = b
+    return CP037_OF[ch]
+
+
+LETTERS = "ABCXYZabcxyz_0189" + "\xe9\xb2\xaa\xff\xbd"
+BLANKS = " \t\n\x0b\x0c\r\x1c\x1f\x85\xa0"
+
+
+def fitting_char(rng, sym, style):
+    """a character of the class the implementation admits for this picture symbol (style 0), or what a COBOL
+    program stores there (style 1: zero suppression, floating insertion, blank sign)"""
+    if sym in "9":
+        return rng.choice("0123456789")
+    if sym in "Z0":
+        if style == 1 and rng.random() < 0.5:
+            return " " if sym == "Z" else "0"
+        return rng.choice("0123456789")
+    if sym == "A":
+        return rng.choice(LETTERS)
+    if sym == "X":
+        return bytes([rng.randrange(256)]).decode("cp037")
+    if sym == "B":
+        return rng.choice(BLANKS) if style == 0 else " "
+    if sym == "S":
+        return rng.choice(" +-")
+    if sym == "+":
+        return rng.choice("+-")
+    if style == 1 and sym in "$*,-" and rng.random() < 0.4:
+        return rng.choice(" *$0")
+    if style == 1 and sym in "CRDB" and rng.random() < 0.4:
+        return " "
+    return sym
+
+
+def fitting_buffer(rng, pic, style=0):
+    return [cp037_byte(fitting_char(rng, sym, style)) for sym in expand(pic)]
+
+
+ALL_BYTES_PICTURES = ["$Z,ZZ9.99-", "AXB9/0*DB", "S99.9", "X(2)A(2)", "ZZ9CR"]
+PLUS_PICTURES = ["+99", "99+", "9+9", "+++9", "99++", "S+9.9", "99+++", "+ZZ9.99", "ZZ9.99+", "9+.9", "$+9", "B++", "S++9", "+", "-+", "X+", "A++B"]
+OPTSIGN_PICTURES = ["S99.99", "S9.9", "SZZ9", "S$99", "SX", "9S.9", "S9(3).9(2)", "SB9", "S0", "SXS"]
+
+
+def text_picture(rng):
+    from c13 import edited_picture, alnum_picture, _RUN_THEN_COUNT
+    for _ in range(50):
+        pic = edited_picture(rng) if rng.random() < 0.75 else alnum_picture(rng)
+        # a run of picture characters followed by a count (XX(3)) is refused by the scanner (C13): not a picture of this domain
+        if "+" not in pic and is_text_picture(pic) and len(expand(pic)) <= 60 and not _RUN_THEN_COUNT.search(pic):
+            return pic
+    return "ZZ9"
+
+
+def text_any_inputs(ctx):
+    rng = ctx.rng
+    quick = ctx.tier == "quick"
+    ctx.exhaustive += ["text_all_256_bytes_at_every_position_of_" + "_".join(ALL_BYTES_PICTURES)]
+    for pic in ALL_BYTES_PICTURES:
+        base = fitting_buffer(rng, pic)
+        for pos in range(len(base)):
+            for b in range(256):
+                yield "text-allbytes", dict(k=5, pic=pic, buf=base[:pos] + [b] + base[pos + 1:], nav=(b % 64 == pos % 64))
+    for i in range(700 if quick else 12000):
+        pic = rng.choice(OPTSIGN_PICTURES) if i % 10 == 9 else text_picture(rng)
+        n = len(expand(pic))
+        yield "text-edited-fit", dict(k=5, pic=pic, buf=fitting_buffer(rng, pic), nav=rng.random() < 0.15)
+        yield "text-edited-cobol", dict(k=5, pic=pic, buf=fitting_buffer(rng, pic, 1), nav=rng.random() < 0.1)
+        buf = fitting_buffer(rng, pic)
+        if buf:
+            buf[rng.randrange(len(buf))] = rng.randrange(256)
+        yield "text-edited-mutated", dict(k=5, pic=pic, buf=buf, nav=rng.random() < 0.1)
+        yield "text-edited-random", dict(k=5, pic=pic, buf=[rng.randrange(256) for _ in range(n)], nav=rng.random() < 0.1)
+        if i % 3 == 0:
+            full = fitting_buffer(rng, pic)
+            yield "text-edited-short", dict(k=5, pic=pic, buf=full[:rng.randint(0, max(0, n - 1))], nav=False)
+            yield "text-edited-surplus", dict(k=5, pic=pic, buf=full + [rng.randrange(256) for _ in range(rng.randint(1, 4))], nav=False)
+    for i in range(150 if quick else 2000):
+        pic = rng.choice(PLUS_PICTURES)
+        n = len(expand(pic))
+        yield "text-plus", dict(k=5, pic=pic, buf=fitting_buffer(rng, pic), nav=(i % 7 == 0))
+        # what matches the quantified expression: the previous character repeated into the + position
+        buf = fitting_buffer(rng, pic)
+        syms = expand(pic)
+        for j in range(1, len(buf)):
+            if syms[j] == "+" and rng.random() < 0.7:
+                buf[j] = buf[j - 1]
+        yield "text-plus", dict(k=5, pic=pic, buf=buf, nav=False)
+        yield "text-plus", dict(k=5, pic=pic, buf=[rng.randrange(256) for _ in range(rng.randint(0, n + 2))], nav=False)
+
+
+# ---------------------------------------------------------------- TextUnpacker at the value level (kinds 6, 7), Struct (kind 8)
+
+def dec_text(sgn, ids, fds, point, lp, rp):
+    """the specification's decimal text (Estruct.decimal_text); the judge checks the record against the Coq definition"""
+    return " " * lp + ["", "+", "-"][sgn] + "".join(map(str, ids)) + (("." + "".join(map(str, fds))) if point else "") + " " * rp
+
+
+def numeric_text_picture(rng):
+    """S?9..9[V9..9] written out (the generator declares it a decimal); width = number of S and 9"""
+    m = rng.randint(1, 12)
+    n = rng.randint(0, 6)
+    pic = ("S" if rng.random() < 0.5 else "") + "9" * m + (("V" + "9" * n) if n else "")
+    return pic, len(pic.replace("V", ""))
+
+
+ODD_TEXT = list("0123456789") * 3 + list("  ++--..eE__") + list("nNaAiIfFsStTyY") + ["\xa0", "\x85", "\uff11", "\u0663", "\x00", "\u2003", "x", ","]
+
+
+def text_unpacker_inputs(ctx):
+    rng = ctx.rng
+    quick = ctx.tier == "quick"
+    for i in range(1500 if quick else 20000):
+        pic, width = numeric_text_picture(rng)
+        # a value whose text fills at most the field
+        sgn = rng.choice([0, 0, 1, 2, 2])
+        room = width - (1 if sgn else 0)
+        if room < 1:
+            sgn, room = 0, width
+        point = room >= 2 and rng.random() < 0.6
+        digits = rng.randint(1, room - (1 if point else 0))
+        nf = rng.randint(0, digits) if point else 0
+        ds = [rng.randrange(10) for _ in range(digits)] if i % 9 else [0] * digits
+        ids, fds = ds[:digits - nf], ds[digits - nf:]
+        used = (1 if sgn else 0) + digits + (1 if point else 0)
+        lp = rng.randint(0, width - used)
+        k = rng.randint(1, 9)
+        yield "textunpacker-decimal", dict(k=6, kk=k, pic=pic, sgn=sgn, ids=ids, fds=fds, point=point, lp=lp, rp=width - used - lp,
+                                           pad=[rng.choice("ABC xyz019.-") for _ in range(k)], tail=rng.randint(0, 5))
+    for i in range(1500 if quick else 20000):
+        if i % 4 == 0:
+            m = rng.randint(1, 9)
+            pic, width = rng.choice([(f"9({m})", m), (f"X({m})", m), ("X" * m, m), (f"S9({m})", m + 1), (f"A({m})", m)])
+        else:
+            pic, width = numeric_text_picture(rng)
+        k = rng.randint(1, 9)
+        style = i % 5
+        if style == 0:
+            body = [rng.choice(ODD_TEXT) for _ in range(width)]
+        elif style == 1:
+            body = list(dec_text(rng.randrange(3), [rng.randrange(10) for _ in range(rng.randint(0, 3))],
+                                 [rng.randrange(10) for _ in range(rng.randint(0, 3))], rng.random() < 0.7, rng.randint(0, 2), rng.randint(0, 2)))
+            body = (body + [" "] * width)[:width]
+            if rng.random() < 0.5 and body:
+                body[rng.randrange(len(body))] = rng.choice(ODD_TEXT)
+        elif style == 2:
+            body = list(rng.choice(["NaN", "Inf", "-Infinity", "sNaN12", "1E5", "1e-3", "12E+4", "1E", "E5", ".", "-", "+.5", "5.", "1_0", "_1_", "1__2", "0.0", "-0", "-.0"]))
+            body = ([" "] * rng.randint(0, max(0, width - len(body))) + body + [" "] * width)[:width]
+        elif style == 3:
+            body = [rng.choice("0123456789") for _ in range(width)]
+        else:
+            body = [chr(rng.choice([rng.randrange(32, 127), rng.randrange(0, 0x250), rng.randrange(0x600, 0x700)])) for _ in range(width)]
+        short = rng.random() < 0.1
+        yield "textunpacker-text", dict(k=7, kk=k, pic=pic, pad=[rng.choice("ABC xyz019.-") for _ in range(k)], body=body[: (rng.randint(0, width) if short else width)],
+                                        tail=0 if short else rng.randint(0, 5))
+
+
+STRUCT_KEYS = [None, "null", "bool", "integer", "number", "string", "decimal", "no-such-conversion"]
+
+
+def struct_inputs(ctx):
+    rng = ctx.rng
+    quick = ctx.tier == "quick"
+    for i in range(600 if quick else 8000):
+        d = rng.randint(1, 20)
+        nf = rng.randint(0, d)
+        signed = rng.random() < 0.5
+        pic = picture(signed, d - nf, nf, repeat=rng.random() < 0.5)
+        usage = rng.choice(BINARY + BINARY + PACKED + [DISPLAY])
+        if usage == DISPLAY and rng.random() < 0.5:
+            pic = text_picture(rng)
+        w = 2 if d < 5 else 4 if d < 10 else 8
+        n = rng.choice([w, w, w, w, 2, 4, 8, rng.randint(0, 10)]) if usage != DISPLAY else rng.choice([len(expand(pic))] * 3 + [rng.randint(0, 12)])
+        key = rng.choice([0, 0, 0, 3, 6, 5, 7, 1, 2, 4])
+        yield "struct-value", dict(k=8, key=key, usage=usage, pic=pic, buf=[rng.randrange(256) for _ in range(n)])
+
+
+_TEXT_SHARED = {}
+
+
+def text_nav_obs(k, pic, record):
+    """schema_iter / SchemaMaker / TextUnpacker().nav(schema, TextInstance(record)).name(NUM).value(), one long-lived unpacker"""
+    from lib import observe_call
+    def call():
+        import io
+        from stingray.cobol_parser import schema_iter
+        from stingray.schema_instance import SchemaMaker, TextUnpacker, TextInstance
+        text = ("       01  REC.\n"
+                f"           05  PAD PIC X({k}).\n"
+                f"           05  NUM PIC {pic}.\n"
+                "           05  TAIL PIC X(5).\n")
+        (js,) = list(schema_iter(io.StringIO(text)))
+        schema = SchemaMaker.from_json(js)
+        if "u" not in _TEXT_SHARED:
+            _TEXT_SHARED["u"] = TextUnpacker()
+        nav = _TEXT_SHARED["u"].nav(schema, TextInstance(record))
+        return nav.name("NUM").value()
+    return observe_call(call, canon)
+
+
+def struct_obs(key, usage, pic, buffer):
+    from lib import observe_call
+    def call():
+        from stingray.schema_instance import SchemaMaker, Struct
+        doc = {"type": "string", "cobol": clause(usage, pic)}
+        if STRUCT_KEYS[key] is not None:
+            doc["conversion"] = STRUCT_KEYS[key]
+        schema = SchemaMaker.from_json(doc)
+        if "s" not in _TEXT_SHARED:
+            _TEXT_SHARED["s"] = Struct()
+        return _TEXT_SHARED["s"].value(schema, bytes(buffer))
+    return observe_call(call, lambda v: [3, list(v)] if isinstance(v, bytes) else canon(v))
 
 
 def observe(ctx, c):
     k = c["k"]
+    if k == 5:
+        from lib import S
+        obs = unpack_obs(clause(DISPLAY, c["pic"]), c["buf"])
+        nav = nav_obs(DISPLAY, c["pic"], c["buf"]) if (c["nav"] and len(c["buf"]) == len(expand(c["pic"]))) else [2]
+        return [5, DISPLAY, S(c["pic"]), c["buf"], obs, nav]
+    if k == 6:
+        from lib import S
+        ambient()
+        record = "".join(c["pad"]) + dec_text(c["sgn"], c["ids"], c["fds"], c["point"], c["lp"], c["rp"]) + "t" * c["tail"]
+        return [6, c["kk"], S(c["pic"]), c["sgn"], c["ids"], c["fds"], c["point"], c["lp"], c["rp"], S(record), text_nav_obs(c["kk"], c["pic"], record)]
+    if k == 7:
+        from lib import S
+        ambient()
+        record = "".join(c["pad"]) + "".join(c["body"]) + "t" * c["tail"]
+        return [7, c["kk"], S(c["pic"]), S(record), text_nav_obs(c["kk"], c["pic"], record)]
+    if k == 8:
+        import sys
+        from lib import S
+        return [8, sys.byteorder == "little", c["key"], c["usage"], S(c["pic"]), c["buf"], struct_obs(c["key"], c["usage"], c["pic"], c["buf"])]
     if k in (1, 2):
         # pictures written with and without repeat notation
         pic = picture(c["signed"], c["m"], c["n"], repeat=(sum(c["ds"]) % 2 == 0))
